@@ -2,6 +2,7 @@ package consensus
 
 import (
 	"errors"
+	"math"
 
 	"github.com/nspcc-dev/dbft"
 	"github.com/nspcc-dev/neo-go/pkg/crypto/keys"
@@ -41,11 +42,16 @@ type (
 	}
 )
 
+// maxCompactPayloads is the maximum number of compact payloads of one kind in a
+// recovery message: at most one per validator, and a validator index is one
+// byte (the reference implementation reads at most 255 of them).
+const maxCompactPayloads = math.MaxUint8
+
 var _ dbft.RecoveryMessage[util.Uint256] = (*recoveryMessage)(nil)
 
 // DecodeBinary implements the io.Serializable interface.
 func (m *recoveryMessage) DecodeBinary(r *io.BinReader) {
-	r.ReadArray(&m.changeViewPayloads)
+	r.ReadArray(&m.changeViewPayloads, maxCompactPayloads)
 
 	var hasReq = r.ReadBool()
 	if hasReq {
@@ -69,8 +75,8 @@ func (m *recoveryMessage) DecodeBinary(r *io.BinReader) {
 		}
 	}
 
-	r.ReadArray(&m.preparationPayloads)
-	r.ReadArray(&m.commitPayloads)
+	r.ReadArray(&m.preparationPayloads, maxCompactPayloads)
+	r.ReadArray(&m.commitPayloads, maxCompactPayloads)
 }
 
 // EncodeBinary implements the io.Serializable interface.
